@@ -307,6 +307,24 @@ func runC16(c *Ctx) {
 	}})
 	r.MustOK("Footnote generator")
 	ev.TLC(genCfg+" (P-invariants on the intended model + document dump)", r)
+	// every order of the references x every order of the definitions of 4 (5) labels
+	permCfg := "Footnote_perm4.cfg"
+	if c.Thorough() {
+		permCfg = "Footnote_perm5.cfg"
+	}
+	r = RunTLC(TLCOpts{Module: "Footnote", Cfg: permCfg, Workers: 8, Timeout: 40 * time.Minute, OnJSON: func(raw []byte) {
+		var d struct {
+			Items []fnItem `json:"items"`
+		}
+		if json.Unmarshal(raw, &d) != nil {
+			infra("bad footnote document %s", raw)
+		}
+		docs = append(docs, concretiseFootnoteDoc(d.Items, n))
+		docCfg = append(docCfg, n%len(cfgs))
+		n++
+	}})
+	r.MustOK("Footnote order generator")
+	ev.TLC(permCfg+" (all orders of references x all orders of definitions)", r)
 	ev.Set("exhaustive", true)
 	nGen := len(docs)
 	ev.Set("generated_documents", nGen)
